@@ -406,6 +406,59 @@ static err_t call_ppMulW(fc_ctx* c)
 	return ERR_OK;
 }
 
+
+/* ------------------------------------- fast reductions modulo tri-/pentanomials */
+static void gen_ppRedFast(fc_ctx* c)
+{
+	static const size_t T[][4] = { {191, 9, 0, 0}, {233, 74, 0, 0}, {409, 87, 0, 0}, {127, 63, 0, 0}, {257, 12, 0, 0},
+		{163, 7, 6, 3}, {283, 12, 7, 5}, {571, 10, 5, 2} };
+	unsigned k = fc_below(c, 8);
+	size_t m = T[k][0], n = W_OF_B(m);
+	word* a = (word*)fc_pub(c, W(2 * n));
+	/* a product of two elements: degree at most 2m - 2 */
+	wwTrimHi(a, 2 * n, 2 * m - 1);
+	if (fc_below(c, 6) == 0)
+		wwSetZero(a, 2 * n), wwSetBit(a, 2 * m - 2, 1);
+	c->a[1] = a, c->n[0] = m, c->n[1] = k;
+	c->a[2] = fc_raw(c, 4 * sizeof(size_t));
+	memcpy(c->a[2], T[k], 4 * sizeof(size_t));
+	c->a[0] = fc_out(c, W(n));
+	c->variant = (int)m;
+}
+static err_t call_ppRedFast(fc_ctx* c)
+{
+	size_t m = c->n[0], n = W_OF_B(m);
+	const size_t* t = (const size_t*)c->a[2];
+	word* a = (word*)sk_alloc(W(2 * n));
+	word* b = (word*)sk_alloc(W(2 * n + 1));
+	word* mod = (word*)sk_alloc(W(n + 1));
+	size_t mn = W_OF_B(m + 1);
+	wwCopy(a, c->a[1], 2 * n);
+	if (t[2])
+	{
+		pp_pentanom_st p;
+		p.m = t[0], p.k = t[1], p.l = t[2], p.l1 = t[3];
+		ppRedPentanomial(a, &p);
+	}
+	else
+	{
+		pp_trinom_st p;
+		p.m = t[0], p.k = t[1];
+		ppRedTrinomial(a, &p);
+	}
+	wwCopy(c->a[0], a, n);
+	/* against the general division */
+	wwSetZero(mod, n + 1);
+	wwSetBit(mod, m, 1), wwSetBit(mod, t[1], 1), wwSetBit(mod, 0, 1);
+	if (t[2])
+		wwSetBit(mod, t[2], 1), wwSetBit(mod, t[3], 1);
+	wwSetZero(b, 2 * n + 1);
+	ppMod(b, c->a[1], 2 * n, mod, mn, stk(ppMod_deep(2 * n, mn)));
+	if (!wwEq(b, a, n))
+		return ERR_BAD_LOGIC;
+	return ERR_OK;
+}
+
 /* ---------------------------------------------------- rings: power, Montgomery */
 static void gen_qrPower(fc_ctx* c)
 {
@@ -474,6 +527,25 @@ static err_t call_zmMont(fc_ctx* c)
 	/* inversion is for units only */
 	if (!qrIsZero(c->a[6], r) && zzIsCoprime(c->a[6], r->n, r->mod, r->n, stk(zzIsCoprime_deep(r->n, r->n))))
 		qrInv(c->a[7], c->a[6], r, st), qrMul(c->a[8], c->a[7], c->a[8], r, st);
+	/* (x / y) * y = x for a unit y; x - y = x + (-y) */
+	if (!qrIsZero(c->a[7], r) && zzIsCoprime(c->a[7], r->n, r->mod, r->n, stk(zzIsCoprime_deep(r->n, r->n))))
+	{
+		word* q = (word*)sk_alloc(W(r->n));
+		word* p2 = (word*)sk_alloc(W(r->n));
+		qrDiv(q, c->a[8], c->a[7], r, st);
+		qrMul(p2, q, c->a[7], r, st);
+		if (!wwEq(p2, c->a[8], r->n))
+			return ERR_BAD_LOGIC;
+	}
+	{
+		word* d1 = (word*)sk_alloc(W(r->n));
+		word* d2 = (word*)sk_alloc(W(r->n));
+		qrSub(d1, c->a[8], c->a[7], r);
+		qrNeg(d2, c->a[7], r);
+		qrAdd(d2, d2, c->a[8], r);
+		if (!wwEq(d1, d2, r->n))
+			return ERR_BAD_LOGIC;
+	}
 	st = stk(qrPower_deep(r->n, r->n, r->deep));
 	qrPower(c->a[6], c->a[8], c->a[7], r->n, r, st);
 	qrTo(c->a[0], c->a[6], r, st);
@@ -569,6 +641,31 @@ static err_t call_ecp2(fc_ctx* c)
 		qrTo((octet*)c->a[0], ecX(pt2), f, st), qrTo((octet*)c->a[0] + no, ecY(pt2, n), f, st);
 	if (fl[10])
 		qrTo((octet*)c->a[4], ecX(pt), f, st), qrTo((octet*)c->a[4] + no, ecY(pt, n), f, st);
+	/* projective interface: 3 G by tripling equals 3 G by multiplication; T - (-T) = 2 T */
+	{
+		word* P3 = (word*)sk_alloc(W(ec->d * n));
+		word* T = (word*)sk_alloc(W(ec->d * n));
+		word* N = (word*)sk_alloc(W(ec->d * n));
+		word* a3 = (word*)sk_alloc(W(2 * n));
+		word* m3 = (word*)sk_alloc(W(2 * n));
+		word* a6 = (word*)sk_alloc(W(2 * n));
+		word k[1];
+		st = stk(ec->deep);
+		ecFromA(P3, ec->base, ec, st);
+		ec->tpl(T, P3, ec, st);   /* ec.h has no ecTpl() macro for the tpl interface */
+		ecNeg(N, T, ec, st);
+		ecSub(P3, T, N, ec, st);
+		if (!ecToA(a3, T, ec, st) || !ecToA(a6, P3, ec, st))
+			return ERR_BAD_LOGIC;
+		k[0] = 3;
+		st = stk(ecMulA_deep(n, ec->d, ec->deep, 1));
+		if (!ecMulA(m3, ec->base, ec, k, 1, st) || !wwEq(m3, a3, 2 * n))
+			return ERR_BAD_LOGIC;
+		k[0] = 6;
+		if (!ecMulA(m3, ec->base, ec, k, 1, st) || !wwEq(m3, a6, 2 * n))
+			return ERR_BAD_LOGIC;
+		fl[11] = 1;
+	}
 	return ERR_OK;
 }
 
@@ -861,6 +958,27 @@ static err_t call_ec2(fc_ctx* c)
 	fl[9] = ecAddMulA(pt2, ec, st, 2, pt, (const word*)c->a[5], c->n[2], ec->base, (const word*)c->a[1], c->n[1]);
 	st = stk(ecHasOrderA_deep(n, ec->d, ec->deep, n + 1));
 	fl[10] = ecHasOrderA(pt, ec, ec->order, n + 1, st);
+	{
+		/* projective interface: 2 P - (-P) = 3 P */
+		word* P3 = (word*)sk_alloc(W(ec->d * n));
+		word* T = (word*)sk_alloc(W(ec->d * n));
+		word* N = (word*)sk_alloc(W(ec->d * n));
+		word* a3 = (word*)sk_alloc(W(2 * n));
+		word* m3 = (word*)sk_alloc(W(2 * n));
+		word k[1];
+		int ok1, ok2;
+		st = stk(ec->deep);
+		ecFromA(P3, pt, ec, st);
+		ecDbl(T, P3, ec, st);
+		ecNeg(N, P3, ec, st);
+		ecSub(T, T, N, ec, st);
+		ok1 = ecToA(a3, T, ec, st);
+		k[0] = 3;
+		st = stk(ecMulA_deep(n, ec->d, ec->deep, 1));
+		ok2 = ecMulA(m3, pt, ec, k, 1, st);
+		if (ok1 != ok2 || (ok1 && !wwEq(m3, a3, 2 * n)))
+			return ERR_BAD_LOGIC;
+	}
 	if (fl[9])
 	{
 		st = stk(ec2AddAA_deep(n, f->deep));
@@ -893,6 +1011,7 @@ const fc_desc fc_math2[] = {
 	D("zzRedCrand", gen_zzRedCrand, call_zzRedCrand), D("zzRedCrandMont", gen_zzRedCrandMont, call_zzRedCrandMont),
 	D("zzPowerModW", gen_zzPowerModW, call_zzPowerModW), D("ppRed", gen_ppRed, call_ppRed),
 	D("ppMulW+ppAddMulW", gen_ppMulW, call_ppMulW),
+	D("ppRedTrinomial/Pentanomial", gen_ppRedFast, call_ppRedFast),
 	D("zmCreate+qrPower", gen_qrPower, call_qrPower), D("zmMontCreate+ops", gen_zmMont, call_zmMont),
 	D("gfp+ecp validators+SWU+ecAddMulA", gen_ecp2, call_ecp2),
 	D("ecp small-order points", gen_ecp_tors, call_ecp_tors),
